@@ -1,5 +1,6 @@
 import Ruint.Model.Add
 import Ruint.Lemmas.Basic
+import Ruint.Lemmas.RsTactic
 
 namespace Ruint.Add
 open Ruint
@@ -8,23 +9,70 @@ theorem toNat_or_decide (p q : Prop) [Decidable p] [Decidable q] :
     (decide p || decide q).toNat = if p ∨ q then 1 else 0 := by
   by_cases hp : p <;> by_cases hq : q <;> simp [hp, hq]
 
+/-- from "value mod W and exact carry flag" to the value equation -/
+theorem word_flag_to_eq (r s : ℕ) (f : Bool) (hr : r = s % W) (hf : f = true ↔ W ≤ s) (hs : s < 2 * W) :
+    r + W * f.toNat = s ∧ r < W := by
+  have hW := W_pos
+  subst hr
+  refine ⟨?_, Nat.mod_lt _ hW⟩
+  cases f
+  · have : s < W := by
+      by_contra h; have := hf.2 (by omega); simp at this
+    simp [Nat.mod_eq_of_lt this]
+  · have : W ≤ s := hf.1 rfl
+    have e : s % W = s - W := by
+      rw [Nat.mod_eq_sub_mod this, Nat.mod_eq_of_lt (by omega)]
+    simp only [Bool.toNat_true, Nat.mul_one]
+    omega
+
+/-- The word primitive GENERATED from the source (`Ruint.Gen.carrying_add`) adds with carry. The proof
+    only uses generic rewriting and `omega`, so semantically neutral rewrites of the Rust function
+    (e.g. `|` → `^` on the two carries, which are never both set) keep it valid. -/
+theorem carryingAdd_flag (a b : ℕ) (c : Bool) (ha : a < W) (hb : b < W) :
+    (carryingAdd a b c).1 = (a + b + c.toNat) % W
+    ∧ ((carryingAdd a b c).2 = true ↔ W ≤ a + b + c.toNat) := by
+  have hc : c.toNat ≤ 1 := Bool.toNat_le c
+  unfold carryingAdd Ruint.Gen.carrying_add
+  rs_norm
+  generalize c.toNat = k at *
+  unfold W at *
+  omega
+
 theorem carryingAdd_spec (a b : ℕ) (c : Bool) (ha : a < W) (hb : b < W) :
     (carryingAdd a b c).1 + W * (carryingAdd a b c).2.toNat = a + b + c.toNat
     ∧ (carryingAdd a b c).1 < W := by
+  obtain ⟨h1, h2⟩ := carryingAdd_flag a b c ha hb
   have hc : c.toNat ≤ 1 := Bool.toNat_le c
-  simp only [carryingAdd, toNat_or_decide]
+  exact word_flag_to_eq _ _ _ h1 h2 (by omega)
+
+theorem borrowingSub_flag (a b : ℕ) (c : Bool) (ha : a < W) (hb : b < W) :
+    (borrowingSub a b c).1 = (a + W - b - c.toNat) % W
+    ∧ ((borrowingSub a b c).2 = true ↔ a < b + c.toNat) := by
+  have hc : c.toNat ≤ 1 := Bool.toNat_le c
+  unfold borrowingSub Ruint.Gen.borrowing_sub
+  rs_norm
   generalize c.toNat = k at *
   unfold W at *
-  split <;> omega
+  omega
 
 theorem borrowingSub_spec (a b : ℕ) (c : Bool) (ha : a < W) (hb : b < W) :
     (borrowingSub a b c).1 + b + c.toNat = a + W * (borrowingSub a b c).2.toNat
     ∧ (borrowingSub a b c).1 < W := by
+  obtain ⟨h1, h2⟩ := borrowingSub_flag a b c ha hb
   have hc : c.toNat ≤ 1 := Bool.toNat_le c
-  simp only [borrowingSub, toNat_or_decide]
+  have hW := W_pos
+  refine ⟨?_, by rw [h1]; exact Nat.mod_lt _ hW⟩
+  rw [h1]
   generalize c.toNat = k at *
-  unfold W at *
-  split <;> omega
+  cases hf : (borrowingSub a b c).2
+  · have : ¬ a < b + k := fun h => by have := h2.2 h; simp [hf] at this
+    have e : (a + W - b - k) % W = a - b - k := by
+      have : a + W - b - k = (a - b - k) + W := by omega
+      rw [this, Nat.add_mod_right, Nat.mod_eq_of_lt (by omega)]
+    simp only [Bool.toNat_false, Nat.mul_zero, Nat.add_zero, e]; omega
+  · have : a < b + k := h2.1 hf
+    have e : (a + W - b - k) % W = a + W - b - k := Nat.mod_eq_of_lt (by omega)
+    simp only [Bool.toNat_true, Nat.mul_one, e]; omega
 
 theorem addChain_spec (as bs : List ℕ) (c : Bool) (h : as.length = bs.length)
     (ha : AllLt as) (hb : AllLt bs) :
